@@ -84,9 +84,30 @@ package capnp
 //@   ensures implies(err == nil, msg != nil && msg.Arena != nil)
 //@   assert before "hdr := streamHeader{data[:hdrSize]}" [C14] hdrfits: M(hdrSize) == hdrBytes(M(maxSeg)) && M(hdrSize) <= M(len(data))
 
-// demuxArena's per-segment slicing needs prefix sums over the header and is not verified (C14
-// note); what Unmarshal relies on is ASSUMED: on success it returns an arena.
+// demuxArena: what each segment of the demuxed arena is, stated pointwise (no prefix sums): there
+// are maxSegment+1 segments, segment k is exactly as long as the header's k-th size field says
+// (length and capacity), segment 0 begins where the data begins and each later segment begins where
+// the one before it ends.  PARTIAL: the slice bounds of `data[:sz:sz]` are not generated - they follow
+// from the caller-side condition len(data) >= totalSize(hdr), a sum over the header that this
+// contract language cannot state without a recursive spec function.
 //@ func demuxArena -> arena, err
-//@   trusted
+//@   props C14 C01
+//@   partial post
+//@   -- (a header announcing 2^32 segments would wrap maxSeg+1 to 0; such a header is 16 GiB long and both
+//@   -- callers have rejected it before: the count is stated for headers below 2^30 segments)
+//@   requires len(hdr.b) >= 8
 //@   modifies nothing
 //@   ensures implies(err == nil, arena != nil)
+//@   ensures count: implies(err == nil && LE32(hdr.b, 0) < 1<<30-1, M(len(*(arena.(*multiSegmentArena)))) == M(LE32(hdr.b, 0))+1)
+//@   ensures exact: implies(err == nil, forall(0, len(*(arena.(*multiSegmentArena))), func(k int) bool {
+//@     return M(len((*(arena.(*multiSegmentArena)))[k])) == 8*M(LE32(hdr.b, 4+4*k)) && cap((*(arena.(*multiSegmentArena)))[k]) == len((*(arena.(*multiSegmentArena)))[k]) }))
+//@   ensures first: implies(err == nil && LE32(hdr.b, 0) < 1<<30-1, sameSlice((*(arena.(*multiSegmentArena)))[0][:0], data[:0]))
+//@   ensures consecutive: implies(err == nil, forall(1, len(*(arena.(*multiSegmentArena))), func(k int) bool {
+//@     return sameSlice((*(arena.(*multiSegmentArena)))[k][:0], (*(arena.(*multiSegmentArena)))[k-1][len((*(arena.(*multiSegmentArena)))[k-1]):]) }))
+//@   old data0 []byte = data
+//@   loop 0 "range segs"
+//@     invariant implies(LE32(hdr.b, 0) < 1<<30-1, M(len(segs)) == M(LE32(hdr.b, 0))+1)
+//@     invariant forall(0, i, func(k int) bool { return M(len(segs[k])) == 8*M(LE32(hdr.b, 4+4*k)) && cap(segs[k]) == len(segs[k]) })
+//@     invariant implies(i == 0, sameSlice(data[:0], data0[:0]))
+//@     invariant implies(i > 0, sameSlice(data[:0], segs[i-1][len(segs[i-1]):]) && sameSlice(segs[0][:0], data0[:0]))
+//@     invariant forall(1, i, func(k int) bool { return sameSlice(segs[k][:0], segs[k-1][len(segs[k-1]):]) })
